@@ -16,7 +16,9 @@ namespace nmtools::index
         
         auto result = result_t {};
 
-        result = ((float)stop - (float)start) / (endpoint ? num - 1 : num);
+        // a single point has no step (numpy.linspace(start,stop,1) is [start]): avoid 0/0
+        auto div = (endpoint ? num - 1 : num);
+        result = (div > 0 ? ((float)stop - (float)start) / div : 0);
 
         return result;
     }
